@@ -267,6 +267,28 @@ def apply_edit(ops, edit):
     elif k == "retarget" and links:
         e = ops[links[idx % len(links)]]
         e["to"] = "some/other/target"
+    elif k == "retarget_case" and links:
+        # the link now names an entry that differs from the old target only in letter case
+        e = ops[links[idx % len(links)]]
+        tgt = next((x for x in ops if x["p"].strip("/") == e["to"].strip("/") and x["t"] == "f"), None)
+        segs = e["to"].strip("/").split("/")
+        if tgt and segs[-1].swapcase() != segs[-1]:
+            twin_p = "/".join(segs[:-1] + [segs[-1].swapcase()])
+            have = next((x for x in ops if x["p"].strip("/") == twin_p), None)
+            if have is None:
+                ops.append(dict(tgt, p=twin_p, seed=int(tgt.get("seed", 0)) + 7))
+            if have is None or have["t"] == "f":
+                e["to"] = twin_p
+                e["sp"] = "rel"
+    elif k == "rename_case" and ops:
+        e = ops[idx % len(ops)]
+        segs = e["p"].split("/")
+        new_p = "/".join(segs[:-1] + [segs[-1].swapcase()])
+        if new_p != e["p"] and not any(x["p"] == new_p or x["p"].startswith(new_p + "/") for x in ops):
+            old_p = e["p"]
+            for x in ops:
+                if x["p"] == old_p or x["p"].startswith(old_p + "/"):
+                    x["p"] = new_p + x["p"][len(old_p):]
     return ops
 
 
@@ -326,7 +348,20 @@ class DirscanEngine:
             ops.append(e)
         edit = None
         if g.random() < 0.6:
-            edit = {"kind": g.choice(["flip", "rename", "add", "remove", "file_to_dir", "file_to_link_equal", "retarget_equal", "retarget"]), "i": g.randrange(50)}
+            edit = {"kind": g.choice(["flip", "rename", "add", "remove", "file_to_dir", "file_to_link_equal", "retarget_equal", "retarget", "retarget_case", "rename_case"]), "i": g.randrange(50)}
+        if edit and edit["kind"] == "retarget_case" and g.random() < 0.7 and not any(e["t"] == "x" for e in ops):
+            # make sure there is a link whose target name has letters
+            d = g.choice(dirs)
+            fp = (d + "/" + g.choice(["Run.csv", "data", "Y", "readme.MD"]) + "_t").strip("/")
+            lp = (g.choice(dirs) + "/current_t").strip("/")
+            if not any(e["p"] in (fp, lp) for e in ops):
+                ops.append({"p": fp, "t": "f", "len": g.choice([0, 5, 64, 65]), "seed": 1, "fill": "rand"})
+                if g.random() < 0.8:
+                    # the case twin exists on both sides: the retarget is then the only difference
+                    tw = fp.split("/")
+                    ops.append({"p": "/".join(tw[:-1] + [tw[-1].swapcase()]), "t": "f", "len": g.choice([0, 5, 64]), "seed": 2, "fill": "rand"})
+                ops.append({"p": lp, "t": "l", "to": fp, "sp": g.choice(["rel", "dotdot", "abs", "dot"])})
+                edit["i"] = len([e for e in ops if e["t"] == "l"]) - 1
         cfg = {"order": [g.randrange(10**6), g.randrange(10**6)], "times": [g.randrange(10**6), g.randrange(10**6)], "reads": g.randrange(10**6), "perm": g.randrange(10**6), "edit": edit, "inplace": g.random() < 0.6, "alg": g.choice(["sha256", "sha256", "sha512"])}
         return {"engine": self.name, "prop": prop, "tag": tag, "cfg": cfg, "ops": ops}
 
@@ -411,6 +446,18 @@ class DirscanEngine:
             probes["pairs_equal" if same_model else "pairs_one_edit"] = 1
             if same_model != same_tree:
                 viol.append({"prop": "C19", "oracle": "pair-equality", "detail": f"models {'equal' if same_model else 'differ (' + json.dumps(cfg.get('edit')) + ')'} but hashsum trees {'equal' if same_tree else 'differ'}", "shape": (cfg.get("edit") or {}).get("kind", "same")})
+            else:
+                # the same question put to the library's own tree comparison (what the packer asks)
+                from metador_core.util.diff import DirDiff
+
+                try:
+                    same_for_consumer = DirDiff.compare(results[0][1], results[1][1]).is_empty
+                except Exception as e:
+                    same_for_consumer = None
+                    viol.append({"prop": "C19", "oracle": "pair-comparison-raised", "detail": f"DirDiff.compare of the two hashsum trees raised {type(e).__name__}: {e}", "shape": (cfg.get("edit") or {}).get("kind", "same")})
+                probes["pairs_compared_by_dirdiff"] = 1
+                if same_for_consumer is not None and same_for_consumer != same_model:
+                    viol.append({"prop": "C19", "oracle": "pair-equality-dirdiff", "detail": f"models {'equal' if same_model else 'differ (' + json.dumps(cfg.get('edit')) + ')'} but the library's comparison of the two hashsum trees says {'no difference' if same_for_consumer else 'different'}", "shape": (cfg.get("edit") or {}).get("kind", "same")})
         sig = hashlib.sha256(json.dumps([sorted((p, e["t"], e.get("to"), e.get("len")) for p, e in mA.items()), cfg.get("edit")]).encode()).hexdigest()[:16]
         nontrivial = len(mA) >= 3 and any(e["t"] == "l" or "/" in p for p, e in mA.items())
         return {"violations": viol, "faults": stats, "probes": probes, "steps": len(mA) + len(mB), "log_digest": hashlib.sha256(json.dumps([[r[0], r[1] if r[0] == "tree" else None] for r in results], sort_keys=True, default=str).encode()).hexdigest()[:16], "sig": sig, "nontrivial": nontrivial}
